@@ -11,7 +11,7 @@
    three indent settings. *)
 From Coq Require Import List Arith NArith Bool Lia.
 Import ListNotations.
-From GG Require Import Text Text_pos Exec.
+From GG Require Import Text Text_pos Exec Json Json_value.
 
 (* When skipSpace returns a byte, that byte is the last one taken from the reader, it is looked
    ahead, and (line, col) is the position just behind it - for every text and every start state
@@ -54,6 +54,17 @@ Proof.
   inversion H; subst. discriminate.
 Qed.
 Print Assumptions C07_envelope.
+
+(* The JSON text of a response: the envelope is a string-keyed object of values (data: nested objects,
+   lists, coerced leaves; errors: a list of objects with a message, a path of strings and integers,
+   locations of integers); written at any indent setting it is text the RFC 8259 reference reader
+   accepts, and it decodes to the same structure (theorem of C18, for every value). *)
+Theorem C07_response_serialises_to_valid_json :
+  forall indent (response : list (list wrune * wv)),
+    wf_wv (WMap response) ->
+    json_parse (write_value false indent (WMap response) 0) = Some (to_json (WMap response)).
+Proof. intros indent response. exact (json_written_value_valid indent (WMap response)). Qed.
+Print Assumptions C07_response_serialises_to_valid_json.
 
 (* Non-vacuity: a token on the third line after CRLF line ends and a comment. *)
 Example C07_example :
